@@ -123,6 +123,8 @@ def work(job):
     warnings.filterwarnings('ignore')
     df = pd.DataFrame(job['data'])
     meta = job['meta']
+    if job.get('alias_denom'):
+        df['__denom__'] = df['S']
     otype = meta['outcome']
     satL, satAL = meta['sat_L'], meta['sat_AL']
     wcol = 'W' if job.get('weighted') else None
@@ -300,7 +302,10 @@ def work(job):
         sim_keys = set(['u'] if pl['kind'] == 'uncond' else [','.join(map(str, od)) for od in pl.get('sim_orders', [])])
         for key, p, conds, blocks in runs:
             if sip is not None:
-                r = guard('StochasticIPTW.fit', lambda: sip_fit(p, conds))
+                # on some frames the stratum code is also stored under a name the library uses internally for its own scratch column
+                # ('__denom__', e.g. kept from an earlier IPTW run): a condition may refer to the caller's column by that name
+                sconds = [c.replace("df['S']", "df['__denom__']") for c in conds] if (conds and '__denom__' in df.columns) else conds
+                r = guard('StochasticIPTW.fit', lambda: sip_fit(p, sconds))
                 if r is not None:
                     po['sip'][key] = r
             if key in sim_keys and not wcol and pl.get('sims', True):
@@ -406,7 +411,7 @@ def make_job(rng, quick, otype, weighted=False, cell=None, n_cov=None, arities=N
                                  arities=arities)
     if weighted:
         df['W'] = [rng.choice([1, 1, 2, 3]) for _ in range(len(df))]
-    job = {'data': df.to_dict('list'), 'meta': meta, 'weighted': weighted,
+    job = {'data': df.to_dict('list'), 'meta': meta, 'weighted': weighted, 'alias_denom': rng.random() < 0.4,
            'plans': make_plans(rng, df, meta, quick, weighted),
            'sub_model': None if weighted else rng.choice(meta['sub_models']),
            'custom': rng.randrange(1, 2 ** 31 - 1) if (otype == 'binary' and not weighted) else None}
